@@ -816,6 +816,13 @@ func (x *Exec) unifyOperands(lv, rv Value, lt, rt types.Type, st *State) (Value,
 		if l.T.isIntLike() && r.T.isIntLike() {
 			return lv, rv
 		}
+		// error compared with an errno value
+		if l.T.K == SErr && r.T.K == SBV {
+			return lv, x.errnoOf(bvResize(r, 64, false))
+		}
+		if r.T.K == SErr && l.T.K == SBV {
+			return x.errnoOf(bvResize(l, 64, false)), rv
+		}
 		// untyped nil against error / other zero-comparable sorts
 		if r.S == "0" && r.T.K == SRef {
 			return lv, zeroOf(l.T)
